@@ -57,6 +57,8 @@ ALIAS = [
     ("dir-into-parent", lambda d: (["-r", "dd", "dd/.."], None)),
     ("dir-via-symlink", lambda d: (["-r", "dd", "dlink"], None)),            # dlink -> . : maps dd onto itself
     ("tree-hardlinked", lambda d: (["-r", "dd", "hd"], None)),               # hd/dd/x is a hard link of dd/x
+    ("tree-symlinked", lambda d: (["-r", "ee", "sd"], None)),                # sd/ee/x, sd/ee/in/y are symlinks to ee/x, ee/in/y (one link each)
+    ("tree-symlinked-abs", lambda d: (["-r", "ee", "sda"], None)),           # the same through absolute link texts
     ("among-valid", lambda d: (["g", "f", "."], None)),
     ("backup-alias", lambda d: (["--backup", "numbered", "f", "./f"], None)),
     ("T-alias", lambda d: (["-T", "f", "sub/../f"], None)),
@@ -79,6 +81,15 @@ def alias_world(d):
     os.symlink(".", os.path.join(d, "dlink"))
     os.link(os.path.join(d, "dd", "x"), os.path.join(d, "hd", "dd", "x"))
     os.link(os.path.join(d, "dd", "in", "y"), os.path.join(d, "hd", "dd", "in", "y"))
+    os.makedirs(os.path.join(d, "ee", "in"))
+    w("ee/x", b"singly linked x" * 10)
+    w("ee/in/y", b"singly linked y" * 10)
+    os.makedirs(os.path.join(d, "sd", "ee", "in"))
+    os.symlink("../../ee/x", os.path.join(d, "sd", "ee", "x"))
+    os.symlink("../../../ee/in/y", os.path.join(d, "sd", "ee", "in", "y"))
+    os.makedirs(os.path.join(d, "sda", "ee", "in"))
+    os.symlink(os.path.join(d, "ee", "x"), os.path.join(d, "sda", "ee", "x"))
+    os.symlink(os.path.join(d, "ee", "in", "y"), os.path.join(d, "sda", "ee", "in", "y"))
 
 
 def src_snapshot(d, exclude_prefixes):
@@ -141,7 +152,7 @@ def run(ctx, out):
                 out.violation("self-copy (%s) issued a mutating call: %s %s" % (label, muts[0]["sys"], muts[0]["p1"]), rep)
             # (a') the same alias invocation with one errno injected at each of its calls: a failed
             # probe must never turn the refusal into a truncation of the source
-            if label in ("dotslash", "symlink", "hardlink", "tree-hardlinked", "dir-via-symlink", "among-valid", "backup-alias"):
+            if label in ("dotslash", "symlink", "hardlink", "tree-hardlinked", "tree-symlinked", "dir-via-symlink", "among-valid", "backup-alias"):
                 calls = [e for e in r.trace if "/.sup" not in e["p1"] and e["sys"] not in
                          ("close", "exit_group", "clone3", "clone", "umask") and not xcp.is_mutating(e)]
                 seen = {}
